@@ -378,6 +378,265 @@ pub fn ng_case(nmax: u8) -> BoxedStrategy<NgCase> {
         .boxed()
 }
 
+
+// ---------------------------------------------------------------------------------------------------------------------
+// sparse variable indices (round 6): the same oracles over n <= 5 logical variables that sit at far-apart positions of a
+// large store (around 63/64/65, 2^16 and 2^17: word and roaring-container boundaries), plus the pairwise NoGood relations
+// the store is built from (is_violating, is_contradicting, conclude, disjunction, new_single_nogood, try_from_pair_iter).
+
+#[derive(Clone, Debug, Serialize, Deserialize, PartialEq, Eq, Hash)]
+pub struct SparseCase {
+    /// strictly increasing positions of the logical variables
+    pub idx: Vec<u32>,
+    pub ops: Vec<NgOp>,
+    pub queries: Vec<Partial>,
+}
+
+fn expand(idx: &[u32], p: &[u8]) -> Vec<Term> {
+    let size = *idx.last().unwrap() as usize + 1;
+    let mut v: Vec<Term> = (0..size).map(|i| Term(2 + i)).collect();
+    for (k, &i) in idx.iter().enumerate() {
+        match p[k] {
+            0 => v[i as usize] = Term::BOT,
+            1 => v[i as usize] = Term::TOP,
+            _ => {}
+        }
+    }
+    v
+}
+
+fn project(idx: &[u32], ng: &NoGood, what: &str) -> Result<Partial, String> {
+    let size = *idx.last().unwrap() as usize + 1;
+    let blank: Vec<Term> = (0..size).map(|i| Term(2 + i)).collect();
+    let mut upd = false;
+    let v = ng.update_term_vec(&blank, &mut upd);
+    if v.len() != size {
+        return Err(format!("{what}: update_term_vec changed the length of the vector"));
+    }
+    let mut out = vec![2u8; idx.len()];
+    let mut k = 0;
+    for (i, t) in v.iter().enumerate() {
+        if k < idx.len() && idx[k] as usize == i {
+            out[k] = if t.is_truth_value() { t.is_true() as u8 } else { 2 };
+            k += 1;
+        } else if *t != blank[i] {
+            return Err(format!("{what}: position {i}, which no nogood and no interpretation mentions, is assigned (positions in use: {idx:?})"));
+        }
+    }
+    if upd != out.iter().any(|&x| x != 2) {
+        return Err(format!("{what}: update flag {upd} but result {}", show(&out)));
+    }
+    if ng.len() != out.iter().filter(|&&x| x != 2).count() {
+        return Err(format!("{what}: len() = {} for {}", ng.len(), show(&out)));
+    }
+    Ok(out)
+}
+
+pub fn c18_sparse_check(c: &SparseCase, st: &mut Stats) -> CheckResult {
+    let idx = &c.idx;
+    let n = idx.len();
+    let size = *idx.last().unwrap() as usize + 1;
+    let fit = |p: &Partial| -> Partial { p.iter().take(n).copied().chain(std::iter::repeat(2)).take(n).collect() };
+    let mk = |p: &[u8]| NoGood::from_term_vec(&expand(idx, p));
+    let mut store = NoGoodStore::new(size as u32);
+    let mut added: Vec<Partial> = Vec::new();
+    for op in &c.ops {
+        match op {
+            NgOp::Mode(m) => store.set_dup_elem(mode(*m)),
+            NgOp::Add(p) => {
+                let p = fit(p);
+                if p.iter().all(|&x| x == 2) {
+                    continue;
+                }
+                let ng = mk(&p);
+                if project(idx, &ng, "from_term_vec")? != p {
+                    return Err(format!("from_term_vec/update_term_vec round trip at positions {idx:?}: {} became {}", show(&p), show(&project(idx, &ng, "")?)));
+                }
+                // the same nogood assembled from pairs and from single assignments
+                let mut pairs = p.iter().enumerate().filter(|(_, &x)| x != 2).map(|(k, &x)| (idx[k] as usize, x == 1));
+                match NoGood::try_from_pair_iter(&mut pairs) {
+                    Some(g) if g == ng => {}
+                    other => return Err(format!("try_from_pair_iter for {} at {idx:?} gives {other:?}, from_term_vec {ng:?}", show(&p))),
+                }
+                let mut acc: Option<NoGood> = None;
+                for (k, &x) in p.iter().enumerate().filter(|(_, &x)| x != 2) {
+                    let s = NoGood::new_single_nogood(idx[k] as usize, x == 1);
+                    match acc.as_mut() {
+                        None => acc = Some(s),
+                        Some(a) => a.disjunction(&s),
+                    }
+                }
+                if acc.as_ref() != Some(&ng) {
+                    return Err(format!("disjunction of new_single_nogood for {} at {idx:?} gives {acc:?}, from_term_vec {ng:?}", show(&p)));
+                }
+                store.add_ng(ng);
+                added.push(p);
+            }
+        }
+    }
+    if added.is_empty() {
+        return Ok(Outcome::Ok);
+    }
+    let excluded = |tau: u32| added.iter().any(|g| matches(g, tau));
+    let hist = || {
+        format!(
+            "positions {idx:?}; {}",
+            c.ops
+                .iter()
+                .map(|o| match o {
+                    NgOp::Mode(m) => format!("mode={:?}", mode(*m)),
+                    NgOp::Add(p) => format!("add {}", show(&fit(p))),
+                })
+                .collect::<Vec<_>>()
+                .join("; ")
+        )
+    };
+    for tau in 0..(1u32 << n) {
+        let p: Partial = (0..n).map(|i| ((tau >> i) & 1) as u8).collect();
+        let got = store.conclusions(&mk(&p));
+        if got.is_none() != excluded(tau) {
+            return Err(format!(
+                "total assignment {} is {} by the added nogoods but conclusions() says {} [{}]",
+                show(&p),
+                if excluded(tau) { "excluded" } else { "not excluded" },
+                if got.is_none() { "conflict" } else { "no conflict" },
+                hist()
+            ));
+        }
+    }
+    let mut derived = false;
+    for q in &c.queries {
+        let q = fit(q);
+        let qn = mk(&q);
+        // pairwise relations between every added nogood and the interpretation
+        for g in &added {
+            let gn = mk(g);
+            let viol = contained(g, &q);
+            if gn.is_violating(&qn) != viol {
+                return Err(format!("is_violating: nogood {} interpretation {} at {idx:?}: got {}", show(g), show(&q), !viol));
+            }
+            let contra = g.iter().zip(&q).any(|(&a, &b)| a != 2 && b != 2 && a != b);
+            if gn.is_contradicting(&qn) != contra {
+                return Err(format!("is_contradicting: nogood {} interpretation {} at {idx:?}: got {}", show(g), show(&q), !contra));
+            }
+            let open: Vec<usize> = (0..n).filter(|&k| g[k] != 2 && q[k] == 2).collect();
+            let want = if open.len() == 1 && !contra { Some((idx[open[0]] as usize, g[open[0]] == 0)) } else { None };
+            if gn.conclude(&qn) != want {
+                return Err(format!("conclude: nogood {} interpretation {} at {idx:?}: got {:?}, expected {:?}", show(g), show(&q), gn.conclude(&qn), want));
+            }
+            // update_term_vec over a partly decided vector: nogood literals win, the rest is kept, flag iff an undecided position is set
+            let tv = expand(idx, &q);
+            let mut upd = false;
+            let r = gn.update_term_vec(&tv, &mut upd);
+            let want_upd = !open.is_empty();
+            let mut exp = tv.clone();
+            for k in 0..n {
+                if g[k] != 2 {
+                    exp[idx[k] as usize] = if g[k] == 1 { Term::TOP } else { Term::BOT };
+                }
+            }
+            if r != exp || upd != want_upd {
+                return Err(format!("update_term_vec: nogood {} over {} at {idx:?}: wrong vector or flag (flag {upd}, expected {want_upd})", show(g), show(&q)));
+            }
+        }
+        let e: Vec<u32> = (0..(1u32 << n)).filter(|&t| extends(t, &q) && !excluded(t)).collect();
+        let direct = added.iter().any(|g| contained(g, &q));
+        match store.conclusions(&qn) {
+            None => {
+                if !e.is_empty() {
+                    return Err(format!("spurious conflict: conclusions({}) = None but the total extension {:#b} avoids all added nogoods [{}]", show(&q), e[0], hist()));
+                }
+            }
+            Some(cn) => {
+                if direct {
+                    return Err(format!("interpretation {} matches an added nogood but no conflict is reported [{}]", show(&q), hist()));
+                }
+                let res = project(idx, &cn, "conclusions")?;
+                for k in 0..n {
+                    if q[k] != 2 && res[k] != q[k] {
+                        return Err(format!("conclusions: decided position {k} of {} changed: {} [{}]", show(&q), show(&res), hist()));
+                    }
+                    if q[k] == 2 && res[k] != 2 {
+                        derived = true;
+                        if !e.iter().all(|t| ((t >> k) & 1) as u8 == res[k]) {
+                            return Err(format!("conclusions: from {} concluded position {k} = {} but an extension avoiding all added nogoods has the other value [{}]", show(&q), res[k], hist()));
+                        }
+                    }
+                }
+            }
+        }
+        match store.verif_conclusion_closure(&expand(idx, &q)) {
+            None => {
+                if !e.is_empty() {
+                    return Err(format!("spurious conflict: closure({}) is inconsistent but the extension {:#b} avoids all added nogoods [{}]", show(&q), e[0], hist()));
+                }
+            }
+            Some(r) => {
+                if direct {
+                    return Err(format!("closure: interpretation {} matches an added nogood but no inconsistency is reported [{}]", show(&q), hist()));
+                }
+                if let Some(v) = r {
+                    let tv = expand(idx, &q);
+                    if v.len() != tv.len() {
+                        return Err("closure returned a vector of wrong length".into());
+                    }
+                    for (i, t) in v.iter().enumerate() {
+                        match idx.iter().position(|&x| x as usize == i) {
+                            None => {
+                                if *t != tv[i] {
+                                    return Err(format!("closure assigned position {i}, which nothing mentions [{}]", hist()));
+                                }
+                            }
+                            Some(k) => {
+                                if q[k] != 2 && *t != tv[i] {
+                                    return Err(format!("closure changed decided position {k} of {} [{}]", show(&q), hist()));
+                                }
+                                if q[k] == 2 && t.is_truth_value() && !e.iter().all(|x| ((x >> k) & 1 == 1) == t.is_true()) {
+                                    return Err(format!("closure: from {} concluded position {k} = {} but an extension avoiding all added nogoods has the other value [{}]", show(&q), t.is_true(), hist()));
+                                }
+                            }
+                        }
+                    }
+                }
+            }
+        }
+    }
+    let crosses16 = idx.first().map(|&a| a < 65536).unwrap_or(false) && idx.last().map(|&a| a >= 65536).unwrap_or(false);
+    if crosses16 {
+        st.label("positions_on_both_sides_of_2^16");
+    }
+    if idx.iter().any(|&a| a >= 64) && idx.iter().any(|&a| a < 64) {
+        st.label("positions_on_both_sides_of_64");
+    }
+    if derived {
+        st.label("literal_derived");
+    }
+    if derived && added.len() >= 2 && idx.iter().any(|&a| a >= 64) {
+        st.nontrivial(stable_hash(c), || json!({"history": hist(), "queries": c.queries.iter().map(|q| show(&fit(q))).collect::<Vec<_>>()}));
+    }
+    Ok(Outcome::Ok)
+}
+
+pub fn sparse_case() -> BoxedStrategy<SparseCase> {
+    // positions drawn around word / container boundaries, made strictly increasing
+    let pool: Vec<u32> = vec![0, 1, 2, 31, 32, 33, 62, 63, 64, 65, 127, 128, 129, 255, 256, 4095, 4096, 65534, 65535, 65536, 65537, 131071, 131072];
+    let positions = proptest::collection::btree_set(proptest::sample::select(pool), 2..=5).prop_map(|s| s.into_iter().collect::<Vec<u32>>());
+    positions
+        .prop_flat_map(|idx| {
+            let nn = idx.len();
+            let ops = proptest::collection::vec(
+                prop_oneof![1 => (0u8..3).prop_map(NgOp::Mode), 6 => partial(nn, false).prop_map(NgOp::Add), 3 => partial(nn, true).prop_map(NgOp::Add)],
+                2..9,
+            );
+            (Just(idx), (0u8..3).prop_map(NgOp::Mode), ops, proptest::collection::vec(prop_oneof![partial(nn, false), partial(nn, true)], 1..6))
+        })
+        .prop_map(|(idx, m, mut ops, queries)| {
+            ops.insert(0, m);
+            SparseCase { idx, ops, queries }
+        })
+        .boxed()
+}
+
 pub fn c18(tier: Tier) -> PropSpec {
     let nmax = tier.pick(6, 9);
     PropSpec {
@@ -398,6 +657,8 @@ pub fn c18(tier: Tier) -> PropSpec {
         parts: vec![
             Part::new("history", tier.pick(300000, 3000000), move || ng_case(nmax), c18_check),
             Box::new(Logged(Part::new("history-with-logging", tier.pick(5000, 50000), || ng_case(4), c18_check))),
+            // round 6: far-apart variable positions (word and roaring-container boundaries) + pairwise NoGood relations
+            Part::new("sparse-positions", tier.pick(1500, 15000), sparse_case, c18_sparse_check),
         ],
     }
 }
